@@ -488,6 +488,15 @@ class Intrinsics:
         if is_tagged(container, "pathparts"):
             if item == "..":
                 return container[1].pardir
+            if item == "/" and getattr(container[1], "text", None) is not None:
+                # '/' is a part exactly when the anchor is a single slash: an absolute POSIX path whose anchor is '//' (exactly two
+                # leading slashes, which pathlib keeps) has the part '//' instead - so this test implies is_absolute(), not conversely
+                from .intrinsics_lib import P_abs
+                P_slash = z3.Function("path_has_single_slash_anchor", StrSort, BoolSort)
+                t = container[1].text
+                ex.assume(z3.Implies(P_slash(t), P_abs(t)))
+                self.use("'/' in Path(s).parts: true only for absolute s; false for an absolute s anchored at '//' (pathlib keeps exactly two leading slashes)")
+                return P_slash(t)
             raise Unsupported("membership in Path.parts of something other than os.pardir")
         if is_tagged(container, "set"):
             container = container[1]
